@@ -107,6 +107,9 @@ def git_facts(dirs):
     return files or [{"name": "none", "committed": False}]
 
 
+SHORT_DIRS = []
+
+
 def scenario(i, group, git, setvars, ident, root, issuances):
     scratch = os.path.join(root, "w%03d" % i)
     settings = {"group": group}
@@ -126,6 +129,10 @@ def scenario(i, group, git, setvars, ident, root, issuances):
     if setvars:
         settings.update({"HTTP_ROOT": os.path.join(scratch, "www"), "TACD_PID_ROOT": os.path.join(scratch, "run"),
                          "TACD_SOCK_ROOT": os.path.join(scratch, "sock"), "TACD_HOST": "127.0.0.1", "TACD_PORT": str(port)})   # every variable its own value
+        if len(ident) > 40:
+            # a unix socket path holds 107 octets: long names need a short directory
+            settings["TACD_SOCK_ROOT"] = "/dev/shm/vc20_%d_%d" % (os.getpid(), i)
+            SHORT_DIRS.append(settings["TACD_SOCK_ROOT"])
         for k in ("HTTP_ROOT", "TACD_PID_ROOT", "TACD_SOCK_ROOT", "TACD_HOST", "TACD_PORT"):
             cenv[k] = settings[k]
         os.makedirs(settings["HTTP_ROOT"], exist_ok=True)
@@ -181,6 +188,9 @@ def run(ctx):
                     continue
                 # identifiers of 1..3 labels; with the documented defaults the tcp responder listens on the identifier itself, which must resolve locally
                 idents = ["localhost"] if (not setvars and group.endswith("tcp")) else (["localhost", "host%d.test" % i, "a.b%d.example" % i][: (3 if ctx.tier == "thorough" else 2)])
+                if setvars and not git:
+                    # a name longer than a common name may be (64), with a label of the greatest length
+                    idents = idents + ["%s.h%d.test" % ("l" * 63, i)]
                 for ident in idents:
                     sp, st = scenario(i, group, git, setvars, ident, root, 3 if (ctx.tier == "thorough" or i % 2 == 0) else 2)
                     specs.append(sp)
@@ -214,6 +224,8 @@ def run(ctx):
                 os.kill(int(pid), 15)
             except (OSError, ValueError):
                 pass
+    for d in SHORT_DIRS:
+        shutil.rmtree(d, ignore_errors=True)
     lines, owner = [], []
     for k, x in enumerate(results):
         lines.append({"e": "Reset", "git": bool(x["meta"]["git"])})
